@@ -50,6 +50,30 @@ type Ctx struct {
 	VerifDir  string
 	Quiet     bool // self-test mode: no files written, no lines printed
 	extraCov  map[string]any
+	alias     map[string]string
+}
+
+// Under runs fn with every rule name in from recorded as rule to: a property can
+// repeat the obligations of a neighbouring property (whose functions carry their
+// own rule names) under a rule of its own.
+func (c *Ctx) Under(to string, from []string, fn func()) {
+	old := c.alias
+	c.alias = map[string]string{}
+	for k, v := range old {
+		c.alias[k] = v
+	}
+	for _, f := range from {
+		c.alias[f] = to
+	}
+	defer func() { c.alias = old }()
+	fn()
+}
+
+func (c *Ctx) ruleName(name string) string {
+	if a, ok := c.alias[name]; ok {
+		return a
+	}
+	return name
 }
 
 // NewCtx starts a run.
@@ -60,6 +84,12 @@ func NewCtx(prog *Program, prop, tier, verifDir string) *Ctx {
 // Rule registers a rule with the sentence that states it, and the minimum
 // number of instances confirmed by hand (a rule matching fewer sites fails).
 func (c *Ctx) Rule(name, text string, floor int) {
+	if a, ok := c.alias[name]; ok {
+		if _, have := c.rules[a]; have {
+			return // the alias target carries its own text
+		}
+		name = a
+	}
 	if _, ok := c.rules[name]; !ok {
 		c.ruleOrder = append(c.ruleOrder, name)
 	}
@@ -84,6 +114,7 @@ func (c *Ctx) Touch(f *Func) {
 }
 
 func (c *Ctx) add(rule, construct string, pos token.Pos, status string, nontrivial bool, detail string) {
+	rule = c.ruleName(rule)
 	if _, ok := c.rules[rule]; !ok {
 		panic("rule not registered: " + rule)
 	}
